@@ -64,11 +64,11 @@ if _os.environ.get("VERIF_FAMF_VARIANTS"):
     PLAN = {p: [e for e in lst if e[0] in _keep] for p, lst in PLAN.items()}
 ASSUMPTIONS = {
     "C02": [
-        "aes software backends: conformance of the composed cipher is concluded from (KS) key-schedule wiring + (ENC)/(DEC) round wiring on arbitrary round keys + leaf lemmas, with the S-box an uninterpreted byte function shared with the FIPS-197 oracle; in (ENC)/(DEC) the S-box stub computes lane 0 and havocs the padding lanes (over-approximation of the real lane-wise function, justified by leaf lemma fx_sub_bytes / fx_inv_sub_bytes)",
+        "aes software backends: conformance of the composed cipher is concluded from (KS) key-schedule wiring on all keys + (ENC)/(DEC) round wiring on arbitrary round keys (instantiated at the expanded key) + leaf lemmas; in the wiring queries the S-box layer number j is an uninterpreted byte function f_j shared by implementation and FIPS-197 oracle in that layer (one function per layer: weaker than one shared function), sub_bytes/inv_sub_bytes are stubbed by bitslice o (f_j with the NOT convention) o inv_bitslice on lane 0 with the padding lanes havocked (over-approximation justified by the lane-wise leaf lemmas fx_sub_bytes / fx_inv_sub_bytes), mix_columns_k / inv_mix_columns_k by the byte forms mc_ks / imc_ks they are proved equal to (fx_mix_columns / fx_inv_mix_columns), and the oracle's MixColumns / InvMixColumns are the k = 0 byte forms, proved equal to the FIPS-197 matrices on all 2^128 states (fx_mc_model / fx_imc_model)",
         "aes:soft32*: the 32-bit fixslice file is selected by a counted substitution of the module's path attribute and analysed on a 64-bit usize host",
     ],
     "C03": ["aes software configurations (64/32-bit file, normal/compact, features hazmat and zeroize) agree pairwise because each conforms to the same FIPS-197 oracle (C02 queries per configuration)"],
-    "C04": ["aes software backends: batch independence = output block `lane` of a full batch equals the oracle cipher of input block `lane` while all other lanes are havocked in every S-box layer (lane symbolic); batch tails and buffer-to-buffer shapes are covered by the generic C04 harnesses"],
+    "C04": ["aes software backends: batch independence = output block `lane` of a full batch equals the oracle cipher of input block `lane` while all other lanes are havocked in every stubbed layer (lane symbolic); batch tails and buffer-to-buffer shapes are covered by the generic C04 harnesses"],
     "C12": ["aes software backends: Enc/Dec/combined constructors are each compared with the oracle key expansion (state equality), conversions and Clone on arbitrary key words"],
-    "C17": ["aes software hazmat: 8-block forms with the S-box uninterpreted on every lane (leaf lemma fx_sub_bytes / fx_inv_sub_bytes), single-block forms direct"],
+    "C17": ["aes software hazmat: 8-block forms with the S-box an uninterpreted byte function per block on every lane and (inv_)mix_columns_0 replaced by its proved byte form; single-block forms direct with the real S-box circuits; InvMixColumns / column mixes tied to the FIPS-197 matrices through fx_mc_model / fx_imc_model"],
 }
